@@ -172,7 +172,9 @@ def run(ctx):
                 cases.append({"text": t, "ts": (y, mm, dd, 12, 0), "latent": 1, "depth": 10, "rel": 1.0, "scorer": "shipped", "seed": 0,
                               "entries": ["single"], "label": "new-year", "form": "new-year"})
     # clock ranges over all 24x24 hour pairs (the 9-5 / day-wrap arithmetic branches on both hours), bare, dated, with minutes
-    forms = ["%d-%d", "%d:00-%d:00", "%d:30-%d:00", "%d:15 bis %d:15 uhr", "tomorrow %d-%d", "1.1.2020 %d:30 - %d:00", "%d to %d", "von %d bis %d uhr"]
+    forms = ["%d-%d", "%d:00-%d:00", "%d:30-%d:00", "%d:15 bis %d:15 uhr", "tomorrow %d-%d", "1.1.2020 %d:30 - %d:00", "%d to %d", "von %d bis %d uhr",
+             # both ends dated, hours without minutes (the ordering guards compare missing minutes)
+             "1.1.2020 %d uhr - 1.1.2020 %d uhr", "1.1.2020 %d uhr - 1.1.2020 %d:30", "1.1.2020 %d:30 - 1.1.2020 %d uhr", "1.1.2020 %dh bis 2.1.2020 %dh"]
     for h1 in range(24):
         for h2 in range(24):
             fs = forms if (h1 == h2 or (h1 % 12 == 0 and h2 % 12 == 0)) else rnd.sample(forms, 1 if ctx.quick else 4)
